@@ -9,8 +9,8 @@
    Theorems: pt_ops_ok (no operation fails, including the unwraps on the reverse maps in the merge and their rebuild),
    pt_served (total + delta serve exactly, per key, the reflexive transitive closure of what was merged), pt_contains_iff,
    pt_merge_total (weak P3), pt_quiescent, pt_restart_*.
-   Not covered: the views through the reverse maps (index [1], [2], [1,2]) and the keyed views of the binary relations
-   (index [0,1], [0,2]); the statements are about the full index (iter_all / contains_key), which is what the engine model reads. *)
+   The statements here are about the full index (iter_all / contains_key), which is what the engine model reads; the keyed views
+   (index [0], [0,1], [0,2]) are in TrUfProvViews.v, the views through the reverse maps (index [1], [2], [1,2]) in TrUfProvRevViews.v. *)
 From Coq Require Import List Arith Bool Lia ZArith.
 From AV Require Import UF.UfBase.
 From AV Require Import UF.TrUfModel.
@@ -147,7 +147,7 @@ Lemma shape_reads : forall g d t, shape g d t ->
   (forall rev, exists l, c_ind_iter_all rev d = Ok l) /\
   (forall x y, (exists ld lt, c_iter_all d = Ok ld /\ c_iter_all t = Ok lt /\ (In (x, y) lt \/ In (x, y) ld)) <-> rtc (g_td T2 g) x y).
 Proof.
-  intros g d t [U Eu HU Hq _|dd Et HE Nd Hv Hvr _ _ Hsv _].
+  intros g d t [U Eu HU Hq _|dd Et HE Nd Hv [Hvr _] _ _ Hsv _].
   - destruct (total_iter_all [] tr_empty tr_empty_inv) as [le [Hle Hie]].
     destruct (total_iter_all Eu U HU) as [lu [Hlu Hiu]].
     split; [|split; [|split]].
@@ -407,10 +407,16 @@ Proof. intros x y [c [E _]]. discriminate. Qed.
 
 Lemma KI_merge : forall s g, KI s g ->
   exists N' D' T', (let '(n, d, t) := s in t_merge n d t) = Ok (N', D', T') /\ KI (N', D', T') (ghost_step T3 g PMerge) /\
-    forall k, kfacts (gk k g) (aget k (tm D')) (aget k (tm T')).
+    (forall k, kfacts (gk k g) (aget k (tm D')) (aget k (tm T')) /\
+               (aget k (tm (snd (fst s))) <> None \/ aget k (tm (snd s)) <> None -> aget k (tm T') <> None)) /\
+    tm N' = [] /\
+    (forall m, rm1 (snd (fst s)) = Some m -> exists mt rb, rm1 (snd s) = Some mt /\ rm1 N' = Some [] /\ rm1 T' = Some (munion m mt) /\
+                                              rebuild_rev false (tm D') = Ok rb /\ rm1 D' = Some rb) /\
+    (forall m, rm2 (snd (fst s)) = Some m -> exists mt rb, rm2 (snd s) = Some mt /\ rm2 N' = Some [] /\ rm2 T' = Some (munion m mt) /\
+                                              rebuild_rev true (tm D') = Ok rb /\ rm2 D' = Some rb).
 Proof.
   intros [[N D] Tt] g [Wn [Wd [Wt HK]]]. destruct Wn as [Nn [Fn1 Fn2]]. destruct Wd as [Nd [Fd1 Fd2]]. destruct Wt as [Nt [Ft1 Ft2]].
-  unfold t_merge.
+  unfold t_merge. cbn [fst snd].
   (* first loop *)
   destruct (loop1_spec (tm D) (tm N) (tm Tt) [] Nd) as [newm1 [totm1 [ndm1 [Hf1 [O1 [I1 [NN1 [NT1 NM1]]]]]]]].
   { intros k d Hkd. pose proof (in_aget _ _ _ _ Nd Hkd) as Hd. destruct (HK k) as [Hn Hs]. rewrite Hd in Hs.
@@ -429,6 +435,19 @@ Proof.
     destruct (kmerge_new _ nw _ (conj Hn Hs)) as [n1 [d1 [t1 [Hm _]]]]. eexists; exact Hm. }
   rewrite Hf2. cbn [bind]. specialize (NT2 NT1). specialize (NM2 NM1).
   (* what the three maps hold for a key afterwards *)
+  assert (HP : forall k, aget k (tm D) <> None \/ aget k (tm Tt) <> None -> aget k totm2 <> None).
+  { intros k Hk. destruct (aget k (tm D)) as [d|] eqn:Hd.
+    - pose proof (aget_in _ _ _ _ Hd) as Hin. destruct (I1 k d Hin) as [n1 [d1 [t1 [_ [E1 [E2 _]]]]]].
+      assert (Hk2 : ~ In k (map fst newm1)) by (apply aget_none_keys; exact E1).
+      destruct (O2 k Hk2) as [E4 _]. rewrite E4, E2. discriminate.
+    - destruct Hk as [Hk|Hk]; [congruence|].
+      assert (HkD : ~ In k (map fst (tm D))) by (apply aget_none_keys; exact Hd).
+      destruct (O1 k HkD) as [E1 [E2 _]].
+      destruct (aget k newm1) as [nw|] eqn:Hnw.
+      + destruct (I2 k nw (aget_in _ _ _ _ Hnw)) as [n1 [d1 [t1 [_ [E4 _]]]]]. rewrite E4, E2.
+        destruct (aget k (tm Tt)); [discriminate|congruence].
+      + assert (Hk2 : ~ In k (map fst newm1)) by (apply aget_none_keys; exact Hnw).
+        destruct (O2 k Hk2) as [E4 _]. rewrite E4, E2. exact Hk. }
   assert (HK' : forall k, KI1 None (aget k ndm2) (aget k totm2) (gk k (ghost_step T3 g PMerge)) /\
                           kfacts (gk k g) (aget k ndm2) (aget k totm2)).
   { intros k. rewrite gk_merge. destruct (HK k) as [Hn Hs].
@@ -478,20 +497,28 @@ Proof.
   destruct has1 eqn:H1; destruct has2 eqn:H2.
   - destruct (Hsome _ _ Fn1 eq_refl) as [a1 ->]. destruct (Hsome _ _ Fd1 eq_refl) as [b1 ->]. destruct (Hsome _ _ Ft1 eq_refl) as [c1 ->].
     destruct (Hsome _ _ Fn2 eq_refl) as [a2 ->]. destruct (Hsome _ _ Fd2 eq_refl) as [b2 ->]. destruct (Hsome _ _ Ft2 eq_refl) as [c2 ->].
-    cbn [of_opt bind]. rewrite Hrb1, Hrb2. cbn [bind]. eexists _, _, _. split; [reflexivity|]. cbn [tm]. split; [|intros k; apply HK'].
-    apply KI_build; [| | |intros k; apply HK']; (split; [cbn [tm map]; first [constructor|assumption]|cbn [rm1 rm2 osome]; split; congruence]).
+    cbn [of_opt bind]. rewrite Hrb1, Hrb2. cbn [bind]. eexists _, _, _. split; [reflexivity|]. cbn [tm rm1 rm2].
+    split; [apply KI_build; [| | |intros k; apply HK']; (split; [cbn [tm map]; first [constructor|assumption]|cbn [rm1 rm2 osome]; split; congruence])|].
+    split; [intros k; split; [apply HK'|apply HP]|]. split; [reflexivity|].
+    split; intros m Hm; first [discriminate Hm|inversion Hm; subst m; eexists _, _; repeat split; first [reflexivity|assumption]].
   - destruct (Hsome _ _ Fn1 eq_refl) as [a1 ->]. destruct (Hsome _ _ Fd1 eq_refl) as [b1 ->]. destruct (Hsome _ _ Ft1 eq_refl) as [c1 ->].
     rewrite (Hnone _ _ Fn2 eq_refl), (Hnone _ _ Fd2 eq_refl), (Hnone _ _ Ft2 eq_refl).
-    cbn [of_opt bind]. rewrite Hrb1. cbn [bind]. eexists _, _, _. split; [reflexivity|]. cbn [tm]. split; [|intros k; apply HK'].
-    apply KI_build; [| | |intros k; apply HK']; (split; [cbn [tm map]; first [constructor|assumption]|cbn [rm1 rm2 osome]; split; congruence]).
+    cbn [of_opt bind]. rewrite Hrb1. cbn [bind]. eexists _, _, _. split; [reflexivity|]. cbn [tm rm1 rm2].
+    split; [apply KI_build; [| | |intros k; apply HK']; (split; [cbn [tm map]; first [constructor|assumption]|cbn [rm1 rm2 osome]; split; congruence])|].
+    split; [intros k; split; [apply HK'|apply HP]|]. split; [reflexivity|].
+    split; intros m Hm; first [discriminate Hm|inversion Hm; subst m; eexists _, _; repeat split; first [reflexivity|assumption]].
   - rewrite (Hnone _ _ Fn1 eq_refl), (Hnone _ _ Fd1 eq_refl), (Hnone _ _ Ft1 eq_refl).
     destruct (Hsome _ _ Fn2 eq_refl) as [a2 ->]. destruct (Hsome _ _ Fd2 eq_refl) as [b2 ->]. destruct (Hsome _ _ Ft2 eq_refl) as [c2 ->].
-    cbn [of_opt bind]. rewrite Hrb2. cbn [bind]. eexists _, _, _. split; [reflexivity|]. cbn [tm]. split; [|intros k; apply HK'].
-    apply KI_build; [| | |intros k; apply HK']; (split; [cbn [tm map]; first [constructor|assumption]|cbn [rm1 rm2 osome]; split; congruence]).
+    cbn [of_opt bind]. rewrite Hrb2. cbn [bind]. eexists _, _, _. split; [reflexivity|]. cbn [tm rm1 rm2].
+    split; [apply KI_build; [| | |intros k; apply HK']; (split; [cbn [tm map]; first [constructor|assumption]|cbn [rm1 rm2 osome]; split; congruence])|].
+    split; [intros k; split; [apply HK'|apply HP]|]. split; [reflexivity|].
+    split; intros m Hm; first [discriminate Hm|inversion Hm; subst m; eexists _, _; repeat split; first [reflexivity|assumption]].
   - rewrite (Hnone _ _ Fn1 eq_refl), (Hnone _ _ Fd1 eq_refl), (Hnone _ _ Ft1 eq_refl).
     rewrite (Hnone _ _ Fn2 eq_refl), (Hnone _ _ Fd2 eq_refl), (Hnone _ _ Ft2 eq_refl).
-    cbn [of_opt bind]. eexists _, _, _. split; [reflexivity|]. cbn [tm]. split; [|intros k; apply HK'].
-    apply KI_build; [| | |intros k; apply HK']; (split; [cbn [tm map]; first [constructor|assumption]|cbn [rm1 rm2 osome]; split; congruence]).
+    cbn [of_opt bind]. eexists _, _, _. split; [reflexivity|]. cbn [tm rm1 rm2].
+    split; [apply KI_build; [| | |intros k; apply HK']; (split; [cbn [tm map]; first [constructor|assumption]|cbn [rm1 rm2 osome]; split; congruence])|].
+    split; [intros k; split; [apply HK'|apply HP]|]. split; [reflexivity|].
+    split; intros m Hm; first [discriminate Hm|inversion Hm; subst m; eexists _, _; repeat split; first [reflexivity|assumption]].
 Qed.
 
 Lemma req_nil_of_rsub : forall A, rsub A [] -> req [] A.
@@ -629,10 +656,10 @@ Theorem pt_merge_total : forall h, qhist3 h ->
        (served T3 PT (run T3 PT h) ++ p_read T3 PT (run T3 PT (h ++ [PMerge])) VDelta).
 Proof.
   intros h Hq [k [x y]] H. pose proof (KI_run h Hq) as HK. pose proof (KI_run _ (q3_merge h Hq)) as HK'.
-  rewrite run_snoc in *. cbn [step PT p_merge p_read] in *. destruct (KI_merge _ _ HK) as [N' [D' [T' [Hm [_ HF]]]]].
+  rewrite run_snoc in *. cbn [step PT p_merge p_read] in *. destruct (KI_merge _ _ HK) as [N' [D' [T' [Hm [_ [HF _]]]]]].
   unfold pt_merge in *. destruct (run T3 PT h) as [[n d] t] eqn:R. rewrite Hm in *.
   apply (proj1 (proj2 (pt_read_osrv _ _ VTotal HK'))) in H. cbn [pt_ver] in H.
-  destruct (proj1 (HF k) x y H) as [H1|H1]; apply in_or_app.
+  destruct (proj1 (proj1 (HF k)) x y H) as [H1|H1]; apply in_or_app.
   - left. rewrite <- R. apply (pt_served h Hq). exact H1.
   - right. apply (proj1 (proj2 (pt_read_osrv _ _ VDelta HK'))). exact H1.
 Qed.
@@ -641,11 +668,11 @@ Theorem pt_quiescent : forall h, qhist3 h -> g_new T3 (ghost_of T3 h) = [] ->
   incl (served T3 PT (run T3 PT (h ++ [PMerge]))) (p_read T3 PT (run T3 PT (h ++ [PMerge])) VTotal).
 Proof.
   intros h Hq Hn [k [x y]] H. pose proof (KI_run h Hq) as HK. pose proof (KI_run _ (q3_merge h Hq)) as HK'. unfold served in H.
-  rewrite run_snoc in *. cbn [step PT p_merge p_read] in *. destruct (KI_merge _ _ HK) as [N' [D' [T' [Hm [_ HF]]]]].
+  rewrite run_snoc in *. cbn [step PT p_merge p_read] in *. destruct (KI_merge _ _ HK) as [N' [D' [T' [Hm [_ [HF _]]]]]].
   unfold pt_merge in *. destruct (run T3 PT h) as [[n d] t] eqn:R. rewrite Hm in *.
   apply in_app_or in H. destruct H as [H|H]; [exact H|].
   apply (proj1 (proj2 (pt_read_osrv _ _ VDelta HK'))) in H. apply (proj1 (proj2 (pt_read_osrv _ _ VTotal HK'))). cbn [pt_ver] in *.
-  apply (proj2 (HF k)); [|exact H]. cbn [gk g_new]. rewrite Hn. reflexivity.
+  apply (proj2 (proj1 (HF k))); [|exact H]. cbn [gk g_new]. rewrite Hn. reflexivity.
 Qed.
 
 Theorem pt_restart_serves : forall h,
@@ -657,4 +684,45 @@ Qed.
 
 Theorem pt_restart_total : forall h, p_read T3 PT (run T3 PT (h ++ [PRestart])) VTotal = [].
 Proof. intros h. rewrite run_snoc. cbn [step PT p_restart p_read]. destruct (run T3 PT h) as [[n d] t]. unfold pt_restart, pt_read, pt_ver, t_default. reflexivity. Qed.
+
+(* ---- PT is made of the model the tie checks: whenever the operation-sequence model of the ternary form
+   (run_state (ter_prov ..), which also reads every view after each start / merge) runs a history, PT is in the same state *)
+Definition op_of3 (o : pop T3) : list op :=
+  match o with PIns t => [OIns (fst t) (fst (snd t)) (snd (snd t))] | PMerge => [OMerge] | PRestart => [OEnd; OStart] end.
+Definition ops_of3 (h : list (pop T3)) : list op := OStart :: flat_map op_of3 h.
+
+Lemma run_state_app_inv : forall St0 (P : prov St0) a b st st2, run_state P st (a ++ b) = Ok st2 ->
+  exists st1, run_state P st a = Ok st1 /\ run_state P st1 b = Ok st2.
+Proof.
+  induction a as [|o a IH]; cbn [app run_state]; intros b st st2 H; [exists st; auto|].
+  destruct (TrUfProvModel.step P st o) as [[st' it]|e]; cbn [bind] in *; [apply IH; exact H|discriminate].
+Qed.
+
+Theorem pt_is_model : forall dom kdom h st,
+  run_state (ter_prov has1 has2 dom kdom) (ps_init (ter_prov has1 has2 dom kdom)) (ops_of3 h) = Ok st ->
+  run T3 PT h = (s_new st, s_delta st, s_total st).
+Proof.
+  intros dom kdom. set (P := ter_prov has1 has2 dom kdom). induction h as [|o h IH] using rev_ind; intros st Hr.
+  - unfold ops_of3 in Hr. cbn [flat_map run_state] in Hr.
+    destruct (TrUfProvModel.step P (ps_init P) OStart) as [[st1 it]|e] eqn:Hs; cbn [bind] in Hr; [|discriminate]. inversion Hr; subst st1.
+    cbn [TrUfProvModel.step P ter_prov TrUfProvModel.p_init p_default ps_init s_stored] in Hs.
+    destruct (read_both _ _) in Hs; cbn [bind] in Hs; [|discriminate]. inversion Hs. reflexivity.
+  - assert (Happ : ops_of3 (h ++ [o]) = ops_of3 h ++ op_of3 o).
+    { unfold ops_of3. rewrite flat_map_app. cbn [flat_map]. rewrite app_nil_r. reflexivity. }
+    rewrite Happ in Hr. destruct (run_state_app_inv _ P _ _ _ _ Hr) as [st1 [Hr1 Hr2]]. rewrite run_snoc, (IH st1 Hr1). clear Hr Hr1 IH Happ.
+    destruct o as [[k [x y]]| |]; cbn [op_of3 Provider.step PT p_ins p_merge p_restart fst snd run_state] in *.
+    + destruct (TrUfProvModel.step P st1 (OIns k x y)) as [[st2 it]|e] eqn:Hs; cbn [bind] in Hr2; [|discriminate].
+      inversion Hr2; subst st2. cbn [TrUfProvModel.step P ter_prov TrUfProvModel.p_insert] in Hs. unfold pt_ins. cbn [fst snd].
+      destruct (t_insert (s_new st1) k x y) as [[n b]|e]; cbn [bind] in Hs; [|discriminate]. inversion Hs. reflexivity.
+    + destruct (TrUfProvModel.step P st1 OMerge) as [[st2 it]|e] eqn:Hs; cbn [bind] in Hr2; [|discriminate].
+      inversion Hr2; subst st2. cbn [TrUfProvModel.step P ter_prov TrUfProvModel.p_merge] in Hs. unfold pt_merge.
+      destruct (t_merge (s_new st1) (s_delta st1) (s_total st1)) as [[[n d] t]|e]; cbn [bind] in Hs; [|discriminate].
+      destruct (read_both _ _) in Hs; cbn [bind] in Hs; [|discriminate]. inversion Hs. reflexivity.
+    + change (TrUfProvModel.step P st1 OEnd) with (Ok (mkPS (s_total st1) (s_new st1) (s_delta st1) (t_default has1 has2), REnd)) in Hr2.
+      cbn [bind] in Hr2.
+      destruct (TrUfProvModel.step P (mkPS (s_total st1) (s_new st1) (s_delta st1) (t_default has1 has2)) OStart) as [[st2 it]|e] eqn:Hs;
+        cbn [bind] in Hr2; [|discriminate].
+      inversion Hr2; subst st2. cbn [TrUfProvModel.step P ter_prov TrUfProvModel.p_init p_default s_stored] in Hs.
+      destruct (read_both _ _) in Hs; cbn [bind] in Hs; [|discriminate]. inversion Hs. reflexivity.
+Qed.
 End Tern.
